@@ -109,6 +109,16 @@ def _check_lock_stub_against_real(base):
     c = portalocker.Lock(p, timeout=0)   # constructing does not acquire
     if c.fh is not None:
         raise RuntimeError("real portalocker.Lock() acquires in the constructor: stub model is wrong")
+    # the lock belongs to the inode, not the path: after an unlink a new Lock on the same path does not contend
+    a.acquire()
+    os.unlink(p)
+    d = portalocker.Lock(p, timeout=0)
+    try:
+        d.acquire()
+    except portalocker.exceptions.LockException:
+        raise RuntimeError("real flock contends across an unlinked lock file: stub model (per-inode locks) is wrong")
+    d.release()
+    a.release()
 
 
 def version_of(fname):
